@@ -3,7 +3,7 @@
 FakeBinaryTherm -- self-consistent linear closure for a binary alloy:
     dG(x, T)      = K * (x - xe(T))                 chemical driving force, J/mol
     x_alpha(g, T) = xe(T) + g / K                   matrix-side interfacial composition for Gibbs-Thomson energy g
-    x_beta        = xb                              precipitate composition (constant)
+    x_beta(g)     = xb + cb * g                     precipitate-side interfacial composition (varies with particle size)
     unstable (sentinel -1) when x_alpha(g, T) >= xlim
     xe(T)         = xe0 + se * (T - T0)
 so the composition at which the driving force equals g is exactly x_alpha(g): the critical radius of nucleation is the radius
@@ -31,9 +31,9 @@ class FaultPlan:
 class FakeBinaryTherm:
     numElements = 2
 
-    def __init__(self, K=1e5, xe0=0.005, se=0.0, T0=1000.0, xb=0.25, xlim=0.3, D=1e-19, phases=("beta",), per_phase=None,
+    def __init__(self, K=1e5, xe0=0.005, se=0.0, T0=1000.0, xb=0.25, cb=1e-6, xlim=0.3, D=1e-19, phases=("beta",), per_phase=None,
                  faults=None):
-        self.K, self.xe0, self.se, self.T0, self.xb, self.xlim, self.D = K, xe0, se, T0, xb, xlim, D
+        self.K, self.xe0, self.se, self.T0, self.xb, self.xlim, self.D, self.cb = K, xe0, se, T0, xb, xlim, D, cb
         self.per_phase = per_phase or {}
         self.faults = faults or FaultPlan()
         self.log = []            # (method, T or None)
@@ -65,7 +65,7 @@ class FakeBinaryTherm:
         if g.ndim > 0 and g.size > 1:
             self.lookupT.append((precPhase, float(np.atleast_1d(T)[0]), int(g.size)))
         xa = self.xe(T, precPhase) + g / self._pp(precPhase, "K")
-        xb = self._pp(precPhase, "xb") * np.ones(np.shape(xa))
+        xb = self._pp(precPhase, "xb") + self._pp(precPhase, "cb") * g * np.ones(np.shape(xa))   # precipitate composition varies with size
         if np.ndim(xa) == 0:
             if xa >= self._pp(precPhase, "xlim"):
                 return -1, -1
